@@ -108,18 +108,20 @@ def opts_for(r, op):
     from .props import PRES
     o = {"via": r.choice(RVIAS), "pre": r.choice(PRES + [None, None])}
     if op in ("getitem", "setitem"):
-        o["spelling"] = r.choice(["plain", "plain", "tuple", "empty", "numpy", "numpy32"])
+        o["spelling"] = r.choice(["plain", "plain", "tuple", "empty", "numpy", "numpy32", "pylist"])
     if op == "setitem":
         o["npscalar"] = r.random() < 0.3
         o["collist"] = r.random() < 0.3
     if op in ("ufunc",):
         o["how"] = r.choice(["ufunc", "operator"])
+        o["zerod"] = r.random() < 0.4
     if op in ("reduce", "scan", "nonzero", "col"):
         o["how"] = r.choice(["method", "np", "positional"] if op == "reduce" else ["method", "np"])
     if op in ("where", "subset"):
         o["via2"] = r.choice(RVIAS)
     if op == "ragged_slice":
         o["how"] = r.choice(["fn", "nps"])
+        o["layout"] = r.choice(["C", "F", "T", "strided"])
     return o
 
 
